@@ -13,6 +13,8 @@ variants:
   augassign every `x op= y` becomes `x = x op y`
   cmpswap   every single comparison `a < b` becomes `b > a` (== and != operands swapped)
   ifinvert  every two-armed `if c: A else: B` becomes `if not c: B else: A`
+  swapstmts adjacent call-free, data-independent simple assignments are swapped
+  elifnest  every `elif` becomes `else: if ...` followed by `pass`
 """
 
 import ast
@@ -143,8 +145,59 @@ class IfInvert(ast.NodeTransformer):
         return n
 
 
+class SwapStmts(ast.NodeTransformer):
+    """swap adjacent, call-free, data-independent simple assignments in every block"""
+
+    @staticmethod
+    def _simple(st):
+        if not isinstance(st, (ast.Assign, ast.AnnAssign)) or getattr(st, 'value', None) is None:
+            return None
+        if any(isinstance(x, (ast.Call, ast.Await, ast.Yield, ast.YieldFrom, ast.Subscript, ast.NamedExpr)) for x in ast.walk(st)):
+            return None
+        tg = st.targets if isinstance(st, ast.Assign) else [st.target]
+        if not all(isinstance(t, ast.Name) for t in tg):
+            return None
+        writes = {t.id for t in tg}
+        reads = {x.id for x in ast.walk(st.value) if isinstance(x, ast.Name)}
+        return writes, reads
+
+    def _swap(self, body):
+        i = 0
+        out = list(body)
+        while i + 1 < len(out):
+            a, b = self._simple(out[i]), self._simple(out[i + 1])
+            if a and b and not (a[0] & b[0]) and not (a[0] & b[1]) and not (b[0] & a[1]):
+                out[i], out[i + 1] = out[i + 1], out[i]
+                i += 2
+            else:
+                i += 1
+        return out
+
+    def generic_visit(self, node):
+        super().generic_visit(node)
+        for field in ('body', 'orelse', 'finalbody'):
+            b = getattr(node, field, None)
+            if isinstance(b, list) and b and all(isinstance(x, ast.stmt) for x in b):
+                setattr(node, field, self._swap(b))
+        return node
+
+
+class ElifNest(ast.NodeTransformer):
+    """`elif` chains become explicitly nested `else: if` blocks followed by a no-op (so unparse cannot re-fold them)"""
+
+    def visit_If(self, n):
+        self.generic_visit(n)
+        if len(n.orelse) == 1 and isinstance(n.orelse[0], ast.If):
+            n.orelse = [n.orelse[0], ast.Pass()]
+        return n
+
+
 def transform(src, variant):
     tree = ast.parse(src)
+    if variant == 'swapstmts':
+        tree = SwapStmts().visit(tree)
+    if variant == 'elifnest':
+        tree = ElifNest().visit(tree)
     if variant == 'augassign':
         tree = AugExpand().visit(tree)
     if variant == 'cmpswap':
@@ -162,7 +215,7 @@ def transform(src, variant):
 
 
 def main():
-    variants = sys.argv[1:] or ['unparse', 'rename', 'docstrip', 'augassign', 'cmpswap', 'ifinvert']
+    variants = sys.argv[1:] or ['unparse', 'rename', 'docstrip', 'augassign', 'cmpswap', 'ifinvert', 'swapstmts', 'elifnest']
     rc_all = 0
     for v in variants:
         tmp = tempfile.mkdtemp(prefix='sa_refac_')
